@@ -54,13 +54,13 @@ Definition c03_wf (c : ctx) : bool :=
 (* ------------------------------------------------------------------ results *)
 Definition safe {A} (r : res A) : Prop := match r with Ok _ | Exc _ => True | _ => False end.
 (* ------------------------------------------------------------------ fast_atoi<int> UB (F09)
-   Since /repo a8219b1:  after a leading '-':  retval = retval * 10 - (ch - '0')  for every further char,
-                         otherwise:            retval = retval * 10 + (ch - '0')
-   on int: no shift any more, a leading '-' is honoured.  There is still no digit test and no
-   range test: UBSan (-fsanitize=signed-integer-overflow) reports retval * 10 or the addition /
-   subtraction leaving [-2^31, 2^31) -- reachable only with 10 or more characters of digits
-   (2147483648, -2147483649, 99999999999) or fewer characters far from the digits.
-   Model: ub flag and the value computed. *)
+   Since /repo 1965750 fast_atoi accumulates in the UNSIGNED type of the same width
+   (retval = retval * 10 + (U)(ch - '0'), the sign applied at the end as U(0) - retval): unsigned
+   arithmetic wraps, nothing is left that UBSan could report; the value is Codec.Bytes.fast_atoi_i32.
+   Before (a8219b1 .. 1965750), kept as *_orig: the accumulation was done in int,
+     after a leading '-':  retval = retval * 10 - (ch - '0'),  otherwise  retval = retval * 10 + (ch - '0'),
+   and retval * 10 or the addition / subtraction leaving [-2^31, 2^31) was signed overflow (UB),
+   reachable with 10 or more digits (2147483648, -2147483649, 99999999999). *)
 Local Open Scope Z_scope.
 Definition in_i32 (z : Z) : bool := (-2147483648 <=? z) && (z <? 2147483648).
 Definition atoi_ub_step (neg : bool) (st : bool * Z) (ch : N) : bool * Z :=
@@ -72,15 +72,17 @@ Definition atoi_ub_step (neg : bool) (st : bool * Z) (ch : N) : bool * Z :=
     else let d := schar ch - 48 in
          let s := if neg then m - d else m + d in
          if in_i32 s then (false, s) else (true, r).
-Definition atoi_run (s : list N) : bool * Z :=
+Definition atoi_run_orig (s : list N) : bool * Z :=
   match cstr s with
   | c :: rest => if (c =? 45)%N then fold_left (atoi_ub_step true) rest (false, 0)
                  else fold_left (atoi_ub_step false) (c :: rest) (false, 0)
   | [] => (false, 0)
   end.
-Definition atoi_ub (s : list N) : bool := fst (atoi_run s).
-(* the value fast_atoi<int> returns when there is no UB *)
-Definition atoi_val (s : list N) : Z := snd (atoi_run s).
+Definition atoi_ub_orig (s : list N) : bool := fst (atoi_run_orig s).
+Definition atoi_val_orig (s : list N) : Z := snd (atoi_run_orig s).
+(* the repaired routine: no UB on any text *)
+Definition atoi_ub (s : list N) : bool := false.
+Definition atoi_val (s : list N) : Z := fast_atoi_i32 s.
 (* canonical int texts: an optional '-' and at most 9 digits (c03_fast_atoi_safe_partial) *)
 Definition small_int_text (s : list N) : bool :=
   match cstr s with
